@@ -770,6 +770,100 @@ func runC07(c *Ctx) {
 	c.Min(1)
 	reportedGasAfterRefund(c, w)
 
+	// ------------------------------------------------------------ P18
+	c.Rule("C07.P18", "ORDER", "subsidies come out of the rewards pool account: in blockRewards the subsidy that is debited from the pool, added to the block's total rewards and written to header.Subsidy is ONE amount — once it has been used as an operand (added to the total, handed to SubBalance, copied into the header) it is not changed in place any more. Capping it at the pool balance after it went into the total debits the pool by what is left and distributes the full wanted subsidy: the difference is created")
+	c.Min(1)
+	{
+		br := w.Fn("staking", "", "blockRewards")
+		c.sawFunc(fname(br))
+		ai := bigIntAliases(br)
+		mut := map[string]bool{"Set": true, "Sub": true, "Add": true, "Mul": true, "Div": true, "Quo": true, "SetUint64": true, "SetInt64": true, "Neg": true}
+		// the debited amount
+		var amount ssa.Value
+		for _, ci := range callInstrs(br) {
+			if o := calleeObj(ci); o != nil && o.Name() == "SubBalance" {
+				args := callArgs(ci)
+				amount = stripConv(args[len(args)-1])
+			}
+		}
+		c.sites++
+		if amount == nil {
+			c.Undecided(fname(br)+"#subsidy-is-one-amount", br.Pos(), "no SubBalance call found in blockRewards")
+		} else {
+			cls := ai.class(amount)
+			reach := func(from, to ssa.Instruction) bool {
+				if from.Block() == to.Block() {
+					fi, ti := -1, -1
+					for i, in := range from.Block().Instrs {
+						if in == from {
+							fi = i
+						}
+						if in == to {
+							ti = i
+						}
+					}
+					return fi < ti
+				}
+				seen := map[*ssa.BasicBlock]bool{}
+				work := append([]*ssa.BasicBlock(nil), from.Block().Succs...)
+				for len(work) > 0 {
+					b := work[len(work)-1]
+					work = work[:len(work)-1]
+					if seen[b] {
+						continue
+					}
+					seen[b] = true
+					if b == to.Block() {
+						return true
+					}
+					work = append(work, b.Succs...)
+				}
+				return false
+			}
+			var uses, muts []ssa.Instruction
+			for _, ci := range callInstrs(br) {
+				o := calleeObj(ci)
+				if o == nil {
+					continue
+				}
+				isBig := o.Pkg() != nil && o.Pkg().Path() == "math/big" && recvName(o) == "Int"
+				if isBig && mut[o.Name()] {
+					if r := callRecv(ci); r != nil && ai.class(stripConv(r)) == cls {
+						muts = append(muts, ci.(ssa.Instruction))
+						continue
+					}
+				}
+				for _, a := range callArgs(ci) {
+					if isBigIntPtr(a.Type()) && ai.class(stripConv(a)) == cls {
+						if r := callRecv(ci); r != nil && stripConv(r) == stripConv(a) {
+							continue
+						}
+						// comparisons and logging read the amount without moving it anywhere
+						if isBig && (o.Name() == "Cmp" || o.Name() == "Sign") {
+							continue
+						}
+						if o.Pkg() != nil && strings.HasSuffix(o.Pkg().Path(), "/logging") {
+							continue
+						}
+						if _, isIface := a.(*ssa.MakeInterface); isIface {
+							continue
+						}
+						uses = append(uses, ci.(ssa.Instruction))
+					}
+				}
+			}
+			bad := ""
+			for _, u := range uses {
+				for _, m := range muts {
+					if reach(u, m) {
+						bad = w.Pos(m.Pos()) + " (after the use at " + w.Pos(u.Pos()) + ")"
+					}
+				}
+			}
+			c.Check(fname(br)+"#subsidy-is-one-amount", br.Pos(), bad == "" && len(uses) >= 2, ifelse(bad == "" && len(uses) >= 2, fmt.Sprintf("the amount is fixed before the first of its %d uses", len(uses)), "the subsidy is changed in place at "+bad+": what is distributed and what the pool pays differ by that change"))
+		}
+	}
+
 	// ------------------------------------------------------------ P13
 	c.Rule("C07.P13", "ALWAYS-WITH", "a validator record that is about to be removed holds no value: a record with no token and no stake left (Validator.IsInvalid) is deleted at the end of the block with whatever it holds, and settleValidatorRewards leaves the rounding residue of an ONLINE validator in RewardsDistributable. So every take-effect handler (the functions registered in teHandlers) that can lower a validator's total tokens — a Sub on Validator.Token or UpdateDelegation with a negated amount — passes afterwards, on every path to a return, a pay-out that tests IsInvalid() and credits RewardsDistributable with AddBalance, then re-sets that field in the replacement record and stores it (in the handler or in a helper it calls). takePenalty lowers the total by a fraction and is not covered")
 	c.Min(2)
